@@ -135,8 +135,8 @@ Proof.
     destruct bw as [x4|] eqn:Ebw end.
   - intros H; inversion H; subst.
     assert (H4 : totx x4 = totx x3).
-    { destruct (n_router n) as [rt|]; [|discriminate]. destruct (rt_wait rt) as [[[] tmo]|]; try discriminate.
-      dmatch_hyp Ebw; [discriminate|]. inversion Ebw; subst. apply totx_log_event. }
+    { destruct (n_router n) as [rt|]; [|discriminate]. destruct (rt_wait rt) as [[[] tmo]|]; try discriminate; try (dmatch_hyp Ebw; [discriminate|]); inversion Ebw; subst.
+      all: (apply totx_log_event). }
     unfold totx, tot in *; simpl. rewrite tot_update_same by reflexivity. congruence.
   - destruct (pick_node_exit a x3 ri n (length (r_path r0)) false []) as [x5 [e5 op5]| |] eqn:Epk; try discriminate.
     intros H; inversion H; subst. rewrite (pick_node_exit_tot _ _ _ _ _ _ _ _ _ Epk). congruence.
